@@ -35,7 +35,8 @@ RULE = ('For every method of both protocol handler tables (1.4 and 1.4.2), argum
         'argument-count validation (reached an electrumx handler); distinct by (method, argument '
         'shape). In addition a deterministic sweep replaces every parameter position of every '
         'method by every value of a boundary pool (non-finite and huge numbers, boundary integers, '
-        'odd strings, containers) in an otherwise valid call.')
+        'odd strings, containers) in an otherwise valid call.' 
+        'c16.fuzz_calls: the same request grammar steered by libFuzzer coverage of electrumx (pbt/fuzz.py), same oracle.')
 ASSUMPTIONS = ['peer discovery networking is disabled (no sockets); name resolution is the real '
                'resolver, offline', 'session throttling is off (COST_HARD_LIMIT=0)']
 BUDGET_S = {'quick': 140, 'thorough': 3300}
